@@ -275,6 +275,10 @@ func (w WALBatch) replay(fs *fileStore) error {
 			fs.nextFreeOffset = (size + pageSize - 1) / pageSize * pageSize
 		}
 	}
+	// CREATE TABLE adds its catalog rows without logging them: when the crash
+	// hit its flush after the pages but before the header, those rows carry
+	// ids beyond the header's counter and no log record mentions them.
+	raiseLastKeyToCatalog(fs)
 	for _, row := range w {
 		if row.WALOp == OpInsert && row.cellID > fs.lastKey {
 			fs.lastKey = row.cellID
@@ -321,4 +325,31 @@ func (w WALBatch) replay(fs *fileStore) error {
 		fs._nextLSN = headerNextLSN
 	}
 	return fs.flushPages()
+}
+
+// raiseLastKeyToCatalog makes sure the row id counter covers the newest row
+// of the two catalog tables (row ids ascend, so that is the last cell of the
+// right-most leaf). A catalog that cannot be read is left to the statements
+// that need it.
+func raiseLastKeyToCatalog(fs *fileStore) {
+	if fs.pageTableRoot == 0 {
+		return
+	}
+	roots := []uint64{fs.pageTableRoot}
+	rs := &RelationService{fs: fs}
+	if off, err := rs.getRelationFileOffset(schemaTableName); err == nil {
+		roots = append(roots, uint64(off))
+	}
+	for _, root := range roots {
+		pg, err := fs.fetch(root)
+		for err == nil && !pg.isLeaf {
+			pg, err = fs.fetch(pg.rightOffset)
+		}
+		if err != nil || len(pg.offsets) == 0 {
+			continue
+		}
+		if key := pg.leafCells[pg.offsets[len(pg.offsets)-1]].key; key > fs.lastKey {
+			fs.lastKey = key
+		}
+	}
 }
